@@ -189,6 +189,7 @@ def stepN (st : St) (n : Nat) (toks : List String) : St × String :=
   | ["settings"] => if running st then (settle fuel st, "ok") else (st, "bad-op")
   | "settle" :: _ => (settle fuel st, "ok")
   | ["probe"] => let st := settle fuel st; (st, obs st.p)
+  | ["finish", "missed-race"] => (st, "out-of-model")
   | ["finish"] =>
     let st := settle fuel st
     let st := match apply st .callerClose with
